@@ -1,7 +1,262 @@
-/- Model `CasRow` (driver token `cas`) — stub, to be filled in. -/
-namespace Stab.CasRow
+/-
+  Model `CasRow` (driver token `cas`) of the optimistic locking of one stage row and its task rows:
+  `SqliteWorkflowStore.store_stage` (auto-commit), `AtomicTransaction.store_stage` inside
+  `store.transaction()` (commit / rollback by the context manager), both with and without
+  `expected_phase`, and `helpers.upsert_task`.
 
-/-- driver entry: the rest of the request line after the model token -/
-def drive (_rest : String) : String := "unimplemented"
+  What the SQL does (mirrored here):
+  * stage:  `UPDATE stage_executions SET status, context, outputs, start_time, end_time, version = version + 1
+             WHERE id = :id AND version = :version [AND status = :expected_phase]`;
+             `rowcount == 0` → ConcurrencyError; otherwise the in-memory `stage.version += 1`.
+  * each in-memory task, in order:  `UPDATE task_executions SET …, version = version + 1 WHERE id = :id AND version = :version`;
+             `rowcount == 0` → `INSERT … version 0`; IntegrityError (row exists, other version) → ConcurrencyError;
+             a successful UPDATE bumps the in-memory `task.version`, an INSERT does not.
+  * transactional variant: any ConcurrencyError rolls the whole transaction back and restores the in-memory versions
+    (`rollback_versions`).
+  * auto-commit variant: a ConcurrencyError is raised WITHOUT rollback.  When the stage UPDATE matched nothing the open
+    transaction is empty.  When the stage UPDATE succeeded and a later task fails, the stage UPDATE and the earlier task
+    writes stay pending on the connection and become durable with that connection's next commit; the model applies them
+    at once and reports `conflictPartial` (the harness commits the dangling transaction to realise exactly this).
+
+  The stage-level content the UPDATE writes is abstracted to `status` and a `payload` list (context/outputs);
+  a modification appends one entry and may set the status.  A client is an in-memory StageExecution object:
+  `read` (retrieve_stage) replaces it, `modify` changes it in memory, `write` stores it, `retry` = read again,
+  re-apply the not-yet-committed modifications, write.  `bump t` is an outside writer changing task row `t`
+  (version + 1) without going through `store_stage`.
+
+  Ghost state: per object `base` (content when read / last committed) and `pend` (modifications since);
+  `log` (committed modifications in commit order), `commits` (client, version the write was based on).
+-/
+import Stab.Model.Basic
+
+namespace Stab.CasRow
+open Stab
+
+structure TRow where
+  tid : Nat
+  ver : Nat
+  st : Nat
+  deriving DecidableEq, Repr
+
+structure Content where
+  status : Nat
+  payload : List Nat
+  deriving DecidableEq, Repr
+
+structure Mod where
+  setStatus : Option Nat      -- new stage status, if any
+  entry : Nat                 -- appended to the payload
+  taskSt : Option (Nat × Nat) -- set the status of in-memory task #k (position) to a value
+  addTask : Bool              -- append a fresh task object
+  deriving DecidableEq, Repr
+
+/-- a client's in-memory StageExecution -/
+structure Obj where
+  version : Nat
+  cur : Content
+  tasks : List TRow
+  base : Content
+  pend : List Mod
+  deriving DecidableEq, Repr
+
+structure Db where
+  version : Nat
+  content : Content
+  tasks : List TRow
+  deriving DecidableEq, Repr
+
+structure State where
+  db : Db
+  objs : List (Nat × Obj) := []
+  nextTid : Nat
+  log : List Mod := []
+  commits : List (Nat × Nat) := []
+  deriving Repr
+
+def init (status ntasks : Nat) : State :=
+  { db := { version := 0, content := { status, payload := [] },
+            tasks := (List.range ntasks).map (fun i => { tid := i, ver := 0, st := 0 }) }
+    nextTid := ntasks }
+
+inductive Op where
+  | read (c : Nat)
+  | modify (c : Nat) (m : Mod)
+  | write (c : Nat) (txn : Bool) (phase : Option Nat)
+  | retry (c : Nat) (txn : Bool) (phase : Option Nat)
+  | bump (tid : Nat)
+  deriving DecidableEq, Repr
+
+inductive Out where
+  | ok | conflict | conflictPartial | noobj
+  deriving DecidableEq, Repr
+
+def applyC (c : Content) (m : Mod) : Content :=
+  { status := m.setStatus.getD c.status, payload := c.payload ++ [m.entry] }
+
+def getObj (s : State) (c : Nat) : Option Obj := (s.objs.find? (fun p => p.1 == c)).map (·.2)
+
+def setObj (s : State) (c : Nat) (o : Obj) : State :=
+  { s with objs := (c, o) :: s.objs.filter (fun p => p.1 != c) }
+
+def setTaskSt : List TRow → Nat → Nat → List TRow
+  | [], _, _ => []
+  | t :: ts, 0, v => { t with st := v } :: ts
+  | t :: ts, k + 1, v => t :: setTaskSt ts k v
+
+/-- the in-memory effect of a modification on the task list -/
+def applyT (tasks : List TRow) (nextTid : Nat) (m : Mod) : List TRow :=
+  let t1 := match m.taskSt with
+    | some (k, v) => setTaskSt tasks k v
+    | none => tasks
+  if m.addTask then t1 ++ [{ tid := nextTid, ver := 0, st := 1 }] else t1
+
+def readOp (s : State) (c : Nat) : State :=
+  setObj s c { version := s.db.version, cur := s.db.content, tasks := s.db.tasks, base := s.db.content, pend := [] }
+
+def modifyOp (s : State) (c : Nat) (m : Mod) : State :=
+  match getObj s c with
+  | none => s
+  | some o =>
+    let s' := setObj s c { o with cur := applyC o.cur m, tasks := applyT o.tasks s.nextTid m, pend := o.pend ++ [m] }
+    if m.addTask then { s' with nextTid := s.nextTid + 1 } else s'
+
+/-- `upsert_task` on the task table: `none` = ConcurrencyError; otherwise the new table and the new in-memory version -/
+def upsert (rows : List TRow) (t : TRow) : Option (List TRow × Nat) :=
+  if rows.any (fun r => r.tid == t.tid && r.ver == t.ver) then
+    some (rows.map (fun r => if r.tid == t.tid && r.ver == t.ver then { r with ver := r.ver + 1, st := t.st } else r),
+          t.ver + 1)
+  else if rows.any (fun r => r.tid == t.tid) then none
+  else some (rows ++ [{ tid := t.tid, ver := 0, st := t.st }], t.ver)
+
+/-- the loop `for task in stage.tasks: upsert_task(...)`: (table, in-memory tasks so far, completed?) -/
+def upsertAll : List TRow → List TRow → List TRow × List TRow × Bool
+  | rows, [] => (rows, [], true)
+  | rows, t :: ts =>
+    match upsert rows t with
+    | none => (rows, t :: ts, false)
+    | some (rows', v) =>
+      let (rows'', mem, okk) := upsertAll rows' ts
+      (rows'', { t with ver := v } :: mem, okk)
+
+def phaseOk (s : State) : Option Nat → Bool
+  | none => true
+  | some p => s.db.content.status == p
+
+def writeOp (s : State) (c : Nat) (txn : Bool) (phase : Option Nat) : State × Out :=
+  match getObj s c with
+  | none => (s, .noobj)
+  | some o =>
+    if s.db.version == o.version && phaseOk s phase then
+      let (rows, mem, okk) := upsertAll s.db.tasks o.tasks
+      if okk then
+        ({ (setObj s c { o with version := o.version + 1, tasks := mem, base := o.cur, pend := [] }) with
+            db := { version := s.db.version + 1, content := o.cur, tasks := rows }
+            log := s.log ++ o.pend
+            commits := s.commits ++ [(c, o.version)] }, .ok)
+      else if txn then (s, .conflict)
+      else
+        ({ (setObj s c { o with version := o.version + 1, tasks := mem }) with
+            db := { version := s.db.version + 1, content := o.cur, tasks := rows } }, .conflictPartial)
+    else (s, .conflict)
+
+def reapply (s : State) (c : Nat) : List Mod → State
+  | [] => s
+  | m :: ms => reapply (modifyOp s c m) c ms
+
+/-- `retry`: read the row again, re-apply the modifications that were not committed, write -/
+def retryOp (s : State) (c : Nat) (txn : Bool) (phase : Option Nat) : State × Out :=
+  match getObj s c with
+  | none => (s, .noobj)
+  | some o => writeOp (reapply (readOp s c) c o.pend) c txn phase
+
+def bumpOp (s : State) (t : Nat) : State :=
+  { s with db := { s.db with tasks := s.db.tasks.map (fun r => if r.tid == t then { r with ver := r.ver + 1 } else r) } }
+
+def step (s : State) : Op → State × Out
+  | .read c => (readOp s c, .ok)
+  | .modify c m => (modifyOp s c m, if (getObj s c).isSome then .ok else .noobj)
+  | .write c t p => writeOp s c t p
+  | .retry c t p => retryOp s c t p
+  | .bump t => (bumpOp s t, .ok)
+
+def next (s : State) (op : Op) : State := (step s op).1
+
+def run (s : State) (ops : List Op) : State := ops.foldl next s
+
+/-- no write of the run ended in the auto-commit variant's half-applied state -/
+def noPartial (s : State) : List Op → Bool
+  | [] => true
+  | op :: rest => (step s op).2 != .conflictPartial && noPartial (next s op) rest
+
+def isBump : Op → Bool
+  | .bump _ => true
+  | _ => false
+
+/-! ### text protocol
+
+  request : `cas <status> <ntasks> <op;op;…>`
+  ops     : `read:c` `mod:c:<status|->:<entry>:<k.v|->:<0|1>` `write:c:<p|t>:<phase|->` `retry:c:<p|t>:<phase|->` `bump:t`
+  answer  : per op `<out>#<version>.<status>.<payload>#<tasks tid.ver.st>` joined by `|`
+  request : `cas upsert <rows tid.ver.st,…> <tid.ver.st>`  →  `ok:<new in-memory version>#<rows>` | `conflict#<rows>`
+-/
+
+def optNat? (s : String) : Option (Option Nat) := if s == "-" then some none else (Parse.nat? s).map some
+
+def parseOp (s : String) : Option Op :=
+  match s.splitOn ":" with
+  | ["read", c] => do pure (.read (← Parse.nat? c))
+  | ["mod", c, st, e, ts, a] => do
+    let taskSt ← (if ts == "-" then some none else
+      match ts.splitOn "." with
+      | [k, v] => do pure (some ((← Parse.nat? k), (← Parse.nat? v)))
+      | _ => none)
+    pure (.modify (← Parse.nat? c) { setStatus := (← optNat? st), entry := (← Parse.nat? e), taskSt, addTask := (← Parse.bool? a) })
+  | ["write", c, v, p] => do
+    let txn ← (if v == "t" then some true else if v == "p" then some false else none)
+    pure (.write (← Parse.nat? c) txn (← optNat? p))
+  | ["retry", c, v, p] => do
+    let txn ← (if v == "t" then some true else if v == "p" then some false else none)
+    pure (.retry (← Parse.nat? c) txn (← optNat? p))
+  | ["bump", t] => do pure (.bump (← Parse.nat? t))
+  | _ => none
+
+def Out.show : Out → String
+  | .ok => "ok" | .conflict => "conflict" | .conflictPartial => "conflict-partial" | .noobj => "noobj"
+
+def showDb (d : Db) : String :=
+  s!"{d.version}.{d.content.status}.{Parse.showNats d.content.payload}#" ++
+    (if d.tasks.isEmpty then "-" else Parse.joinWith "," (d.tasks.map (fun t => s!"{t.tid}.{t.ver}.{t.st}")))
+
+def runShow (s : State) : List Op → List String
+  | [] => []
+  | op :: rest =>
+    let (s', o) := step s op
+    (o.show ++ "#" ++ showDb s'.db) :: runShow s' rest
+
+def parseTRow (s : String) : Option TRow :=
+  match s.splitOn "." with
+  | [a, b, c] => do pure { tid := (← Parse.nat? a), ver := (← Parse.nat? b), st := (← Parse.nat? c) }
+  | _ => none
+
+def showRows (rows : List TRow) : String :=
+  if rows.isEmpty then "-" else Parse.joinWith "," (rows.map (fun t => s!"{t.tid}.{t.ver}.{t.st}"))
+
+/-- `cas upsert <rows> <tid.ver.st>` : `helpers.upsert_task` as a function -/
+def driveUpsert (rows t : String) : String :=
+  match (if rows == "-" then some [] else Parse.all? parseTRow (rows.splitOn ",")), parseTRow t with
+  | some rows, some t =>
+    match upsert rows t with
+    | none => "conflict#" ++ showRows rows
+    | some (rows', v) => s!"ok:{v}#" ++ showRows rows'
+  | _, _ => "bad-request"
+
+def drive (rest : String) : String :=
+  match rest.splitOn " " with
+  | ["upsert", rows, t] => driveUpsert rows t
+  | [st, nt, ops] =>
+    match Parse.nat? st, Parse.nat? nt, Parse.all? parseOp (Parse.splitNE ops ";") with
+    | some st, some nt, some ops => Parse.joinWith "|" (runShow (init st nt) ops)
+    | _, _, _ => "bad-request"
+  | _ => "bad-request"
 
 end Stab.CasRow
